@@ -1341,22 +1341,29 @@ func (t *Terminal) decModes(ps [][]int, set bool) {
 	}
 }
 
+// altScreen implements xterm's 1049 (charproc.c srm_OPT_ALTBUF_CURSOR): set =
+// CursorSave, ToAlternate, ClearScreen; reset = FromAlternate, CursorRestore -
+// the save/restore happens whether or not the screen actually switches.
 func (t *Terminal) altScreen(on bool) {
 	t.lastValid = false
-	if on && !t.AltActive {
-		t.prim.saved = &savedCursor{t.R, t.C, t.Pen}
-		t.cur = t.alt
-		t.AltActive = true
+	if on {
+		t.saveCursor()
+		if !t.AltActive {
+			t.cur = t.alt
+			t.AltActive = true
+		}
 		for r := range t.alt.cells {
 			for c := range t.alt.cells[r] {
 				t.alt.cells[r][c] = t.eraseCell(true)
 			}
 		}
-	} else if !on && t.AltActive {
+		return
+	}
+	if t.AltActive {
 		t.cur = t.prim
 		t.AltActive = false
-		t.restoreCursor()
 	}
+	t.restoreCursor()
 }
 
 func (t *Terminal) eraseDisplay(mode int) {
